@@ -265,7 +265,17 @@ class MethodsMixin(object):
                 return VFun("opaque." + name, lambda ex, st, args, kw, node: VNone())
             return None
         if isinstance(cell, (HList, HCList)):
+            def run_hooks(st, values, node):
+                for nm, code in self.unit.append_hooks.items():
+                    v = st.env.get(nm)
+                    if isinstance(v, VRef) and v.oid == oid and not self.in_contract:
+                        from .unit import parse_code
+                        for x in values:
+                            st.env["appended_"] = x
+                            self.run_ghost(parse_code(code), st, node)
+
             def m_append(ex, st, args, kw, node):
+                run_hooks(st, [args[0]], node)
                 c = st.heap[oid]
                 x = args[0]
                 if isinstance(c, HCList):
@@ -280,6 +290,11 @@ class MethodsMixin(object):
                 return VNone()
 
             def m_extend(ex, st, args, kw, node):
+                o_ = args[0]
+                if isinstance(o_, VRef) and isinstance(st.heap[o_.oid], HCList):
+                    run_hooks(st, list(st.heap[o_.oid].items), node)
+                elif isinstance(o_, VTuple):
+                    run_hooks(st, list(o_.items), node)
                 c = st.heap[oid]
                 o = args[0]
                 if isinstance(o, VOpt):
